@@ -5,7 +5,7 @@
    (on_close once, no sends afterwards, keepalive stopped) is runtime behaviour checked on the real endpoint. *)
 From Coq Require Import Arith NArith List Bool Init.Byte.
 From RSV Require Import gen.GenConst lib.Bytes model.Frame model.Parser model.Fragmenter model.StreamIds model.Endpoint
-     proofs.ParserProofs proofs.EndpointProofs proofs.EndpointSignals.
+     proofs.ParserProofs proofs.EndpointProofs proofs.EndpointSignals proofs.EndpointSweep.
 Import ListNotations.
 Open Scope N_scope.
 
@@ -31,6 +31,26 @@ Theorem C11_close_by_kind e sid oid ob : nth_error (objs e) oid = Some ob -> o_s
   end.
 Proof. exact (close_one_effects e sid oid ob). Qed.
 Print Assumptions C11_close_by_kind.
+
+(* THE WHOLE SWEEP, from every reachable state: what the application is told when the connection is lost is exactly,
+   for every stream registered at that moment (oldest registration first) and judged by that stream's state at that
+   moment, the pending request failed / the open subscriber failed / the handler future or publisher cancelled — each
+   once, nothing else, nothing for streams that are not registered *)
+Theorem C11_sweep_complete : forall u e, Inv e -> snd (ep_step u e LClose) = sweep_of e (rev (table e)).
+Proof. exact close_sweep_complete. Qed.
+Print Assumptions C11_sweep_complete.
+Theorem C11_sweep_per_object : forall ob oid, close_effects ob oid =
+  match o_kind ob with
+  | KRRReq => match o_fut ob with FPending => [XFut oid false] | _ => [] end
+  | KRRResp => match o_fut ob with FPending => [XAppFutCancel oid] | _ => [] end
+  | KRSReq => if o_has_sub ob then [XCb oid SError] else []
+  | KRSResp => [XPub oid PCancelOp]
+  | KChanReq => (if o_recv ob then [] else if o_has_sub ob then [XCb oid SError] else [])
+                ++ (if o_has_pub ob then [XPub oid PCancelOp] else [])
+  | KChanResp => if o_has_pub ob then [XPub oid PCancelOp] else []
+  end.
+Proof. intros. reflexivity. Qed.
+Print Assumptions C11_sweep_per_object.
 
 (* sweeping one entry leaves every other object as it was, so each is treated according to its own state *)
 Theorem C11_close_other_objects e sid oid j : j <> oid ->
